@@ -622,6 +622,36 @@ func directedMerc() []mercIn {
 			out = append(out, in)
 		}
 	}
+	// correct observers with a partial fee-fetch failure (invalid flag, no bytes) plus one faulty outlier (seeded C08-C):
+	// the three correct prices still outnumber the faulty one, the consensus must stay among them
+	for ver := 2; ver <= 4; ver++ {
+		for pos := 0; pos < 4; pos++ {
+			in := mercIn{Cfg: mercCfg{Ver: ver, F: 1, Min: "0", Max: "1000000", Window: 10, MaxLen: 400}}
+			rd := mercRound{Mode: "ok", Prev: "none"}
+			k := 0
+			for i := 0; i < 4; i++ {
+				var o mercObs
+				if i == pos {
+					o = mercObs{Honest: false, Ts: 4001, PV: true, Bm: i192(big.NewInt(999)), Bid: i192(big.NewInt(998)), Ask: i192(big.NewInt(1000)),
+						MfV: true, Mf: 100, LV: true, Link: i192(big.NewInt(1)), NV: true, Native: i192(big.NewInt(2)), SV: true, Status: 2}
+				} else {
+					p := int64(100 + k)
+					o = mercObs{Honest: true, Ts: 4000 + uint32(k), PV: true, Bm: i192(big.NewInt(p)), Bid: i192(big.NewInt(p - 1)), Ask: i192(big.NewInt(p + 1)),
+						MfV: true, Mf: 100, LV: true, Link: i192(big.NewInt(1)), NV: true, Native: i192(big.NewInt(2)), SV: true, Status: 2}
+					if k < 2 { // fee fetch failed on this node
+						o.LV, o.Link = false, nil
+						if k == 1 {
+							o.NV, o.Native = false, nil
+						}
+					}
+					k++
+				}
+				rd.Obs = append(rd.Obs, o)
+			}
+			in.Rounds = []mercRound{rd}
+			out = append(out, in)
+		}
+	}
 	// bootstrap with failed max-finalized fetches (seeded C09-C): k observers agree on a valid value, the other
 	// n-k carry the invalid flag (and whatever number, here 0 / -1 / the same value): an invalid entry is not a vote
 	for ver := 1; ver <= 4; ver++ {
